@@ -147,7 +147,8 @@ def run(tier, seed):
         ev.sample({"model": cfg, "row": rows[len(rows) // 2]})
     ev.cov["traces_validated_against_impl"] = total
     ev.cov["rule"] = ("every pair of hierarchies of the models x windows x reduced/full (T) and labelled pairs (L; every third row in "
-                      "the quick tier), random beta; compared to 1e-9 with the exact rationals of the triplet definition; "
+                      "the quick tier), random beta; compared to 1e-9 with the exact rationals of the triplet definition; hierarchy.evaluate as a "
+                      "composition with its aligned levels (MC_C17_eval); "
                       "distinct = distinct (hierarchies, window, mode, frame size); non-trivial = defined and recall strictly "
                       "between 0 and 1")
     ev.cov["exhaustive"] = True
